@@ -124,19 +124,20 @@ func NewMetricIndexDatabase(dir string, metaDB MetricMetaDatabase) (MetricIndexD
 	return index, nil
 }
 
-func (index *metricIndexDatabase) createSeriesID(metricID metric.ID) (seriesID uint32) {
+func (index *metricIndexDatabase) createSeriesID(metricID metric.ID) (seriesID uint32, err error) {
 	sequence, ok := index.sequenceCache.Get(metricID)
 	if ok {
-		return sequence + 1
+		return sequence + 1, nil
 	}
-	seriesIDs, newSeriesErr := index.metricInverted.getSeriesIDs(uint32(metricID))
-	if newSeriesErr == nil {
-		if seriesIDs.IsEmpty() {
-			return 0
-		}
-		return seriesIDs.Maximum() + 1
+	seriesIDs, err := index.metricInverted.getSeriesIDs(uint32(metricID))
+	if err != nil {
+		// NOTE: cannot generate series id if read series ids failure, else the series ids of metric will be reused from 0.
+		return 0, err
 	}
-	return 0
+	if seriesIDs.IsEmpty() {
+		return 0, nil
+	}
+	return seriesIDs.Maximum() + 1, nil
 }
 
 // GenSeriesID generates time series id based on tags hash.
@@ -147,7 +148,10 @@ func (index *metricIndexDatabase) GenSeriesID(metricID metric.ID, row *metric.St
 	binary.LittleEndian.PutUint64(scratch[:], tagsHash)
 
 	seriesID, isNewSeries, err = index.series.GetOrCreateValue(uint32(metricID), scratch[:], func() (uint32, error) {
-		newSeriesID := index.createSeriesID(metricID)
+		newSeriesID, err := index.createSeriesID(metricID)
+		if err != nil {
+			return 0, err
+		}
 		// NOTE: must check series limit before the series id is stored into kv store(tags hash=>series id), if check it after
 		// that, the sequence of metric isn't changed, next new series will get same series id(different series share one id).
 		limits := models.GetDatabaseLimits(index.metaDB.Name())
